@@ -46,3 +46,139 @@ package chunkinfo
 //@   requires ci != nil && ci.cp != nil
 //@   ensures only-data-chunks-have-a-position: result >= 0 ==> present(tableOf(rootCid).cids, strOf(cid)) && result == tableOf(rootCid).cids[strOf(cid)].sort && result < len(tableOf(rootCid).cids)
 //@   ensures never-below-minus-one: result >= 0 - 1
+
+//@ # ---- C37: no message from a remote peer makes the chunk discovery / pyramid exchange panic ----
+//@ extern func (github.com/gauss-project/aurorafs/pkg/p2p/protobuf.Reader).ReadMsgWithContext
+//@   assigns target(msg)
+//@ extern func (github.com/gauss-project/aurorafs/pkg/p2p/protobuf.Writer).WriteMsgWithContext
+//@   assigns nothing
+//@ extern func github.com/gauss-project/aurorafs/pkg/p2p/protobuf.NewWriterAndReader
+//@   assigns nothing
+//@ extern func github.com/gauss-project/aurorafs/pkg/p2p/protobuf.NewReader
+//@   assigns nothing
+//@ extern func (github.com/gauss-project/aurorafs/pkg/p2p.Stream).Reset
+//@   assigns nothing
+//@ extern func (github.com/gauss-project/aurorafs/pkg/p2p.Stream).FullClose
+//@   assigns nothing
+//@ extern func (github.com/gauss-project/aurorafs/pkg/p2p.Streamer).NewStream
+//@   ensures result1 == nil ==> result0 != nil
+//@   assigns nothing
+//@ extern func (github.com/gauss-project/aurorafs/pkg/routetab.RouteTab).Connect
+//@   assigns nothing
+//@ # an address written out by String() is hexadecimal; MustParseHexAddress panics on anything else
+//@ spec func hexText(s string) bool
+//@ axiom address-strings-are-hex: forall a boson.Address :: hexText(strOf(a))
+//@ extern func github.com/gauss-project/aurorafs/pkg/boson.MustParseHexAddress
+//@   requires hexText(s)
+//@   assigns nothing
+//@ extern func github.com/gauss-project/aurorafs/pkg/boson.ParseHexAddress
+//@   assigns nothing
+//@ # bit vectors (pkg/bitvector, C39): a vector is only built from enough bytes, the methods need one
+//@ extern func github.com/gauss-project/aurorafs/pkg/bitvector.NewFromBytes
+//@   ensures (result1 == nil ==> result0 != nil) && (result1 != nil ==> result0 == nil)
+//@   ensures result1 == nil <==> (l > 0 && len(b) * 8 >= l)
+//@   assigns nothing
+//@ extern func (*github.com/gauss-project/aurorafs/pkg/bitvector.BitVector).Bytes
+//@   requires bv != nil
+//@   assigns nothing
+//@ extern func (*github.com/gauss-project/aurorafs/pkg/bitvector.BitVector).Len
+//@   requires bv != nil
+//@   assigns nothing
+//@ extern func (*github.com/gauss-project/aurorafs/pkg/bitvector.BitVector).SetBytes
+//@   requires bv != nil
+//@   assigns nothing
+//@ extern func (github.com/gauss-project/aurorafs/pkg/storage.StateStorer).Put
+//@   assigns nothing
+//@ # local helpers that do not look at message content
+//@ extern func (*ChunkInfo).chunkPutChanUpdate
+//@   assigns nothing
+//@ extern func (*ChunkInfo).getChunkSize
+//@   assigns nothing
+//@ # (the keys of the node's own pyramid are written by Address.String)
+//@ extern func (*ChunkInfo).getChunkPyramid
+//@   ensures forall k string :: present(result0, k) ==> hexText(k)
+//@   assigns nothing
+//@ extern func (*ChunkInfo).isExists
+//@   assigns nothing
+//@ extern func (*ChunkInfo).doFindChunkInfo
+//@   assigns nothing
+//@ extern func (*ChunkInfo).getQueue
+//@   assigns nothing
+//@ extern func (*queue).len
+//@   requires q != nil
+//@   assigns nothing
+//@ extern func (*queue).isExists
+//@   requires q != nil
+//@   assigns nothing
+//@ extern func (*queue).push
+//@   requires q != nil
+//@   assigns nothing
+//@ extern func (*queue).popNode
+//@   requires q != nil
+//@   assigns nothing
+//@ extern func (*timeoutTrigger).removeTimeOutTrigger
+//@   requires tt != nil
+//@   assigns nothing
+//@ extern func (*chunkInfoTabNeighbor).getNeighborChunkInfo
+//@   requires cn != nil
+//@   assigns nothing
+//@ extern func (*sync.Map).Load
+//@   assigns nothing
+
+//@ spec func ciOK(ci *ChunkInfo) bool = ci != nil && ci.cd != nil && ci.cd.presence != nil && ci.ct != nil && ci.cp != nil && ci.tt != nil && ci.logger != nil && ci.stateStorer != nil && ci.route != nil && ci.streamer != nil && ci.traversal != nil && ci.metrics.DiscoverTotalRetrieved != nil && ci.metrics.DiscoverRequestCounter != nil && ci.metrics.PyramidChunkTransferredError != nil && ci.metrics.PyramidTotalTransferred != nil && ci.metrics.PyramidRequestCounter != nil && ci.metrics.PyramidTotalRetrieved != nil
+//@ # every availability record already held has a vector
+//@ spec func presenceOK(ci *ChunkInfo) bool = (forall r string :: present(ci.cd.presence, r) ==> ci.cd.presence[r] != nil) && (forall r string, o string :: present(ci.cd.presence, r) && present(ci.cd.presence[r], o) ==> ci.cd.presence[r][o] != nil && ci.cd.presence[r][o].bit != nil)
+
+//@ func (*ChunkInfo).handlerChunkInfoReq
+//@   property C37
+//@   requires ciOK(ci) && stream != nil
+
+//@ func (*ChunkInfo).handlerChunkInfoResp
+//@   property C37
+//@   requires ciOK(ci) && stream != nil
+
+//@ func (*ChunkInfo).handlerPyramid
+//@   property C37
+//@   requires ciOK(ci) && stream != nil
+//@   loop 1 invariant ciOK(ci)
+//@   loop 2 invariant ciOK(ci) && 0 - 1 <= rangeindex && rangeindex < len(resps)
+
+//@ func (*ChunkInfo).onChunkInfoReq
+//@   property C37
+//@   requires ciOK(ci)
+
+//@ func (*ChunkInfo).onChunkInfoResp
+//@   property C37
+//@   requires ciOK(ci)
+
+//@ func (*ChunkInfo).onFindChunkInfo
+//@   property C37
+//@   requires ciOK(ci)
+
+//@ # what a peer says about other peers: the keys are arbitrary text, the vectors arbitrary bytes
+//@ func (*ChunkInfo).updateQueue
+//@   property C37
+//@   requires ciOK(ci)
+//@   loop 1 invariant ciOK(ci) && q != nil
+
+//@ # a peer's availability vector for a file is recorded only if it has enough bytes for the file
+//@ func (*ChunkInfo).updateChunkInfo
+//@   property C37
+//@   requires ciOK(ci) && presenceOK(ci)
+//@   ensures files-keep-a-table: forall r string :: present(ci.cd.presence, r) ==> ci.cd.presence[r] != nil
+//@   ensures records-exist: forall r string, o string :: present(ci.cd.presence, r) && present(ci.cd.presence[r], o) ==> ci.cd.presence[r][o] != nil
+//@   ensures records-keep-a-vector: forall r string, o string :: present(ci.cd.presence, r) && present(ci.cd.presence[r], o) ==> ci.cd.presence[r][o].bit != nil
+
+//@ func (*ChunkInfo).sendData
+//@   property C37
+//@   requires ciOK(ci)
+
+//@ func (*ChunkInfo).sendPyramid
+//@   property C37
+//@   requires ciOK(ci)
+//@   loop 1 invariant ciOK(ci)
+
+//@ func (*ChunkInfo).onChunkPyramidResp
+//@   property C37
+//@   requires ciOK(ci)
+//@   loop 1 invariant ciOK(ci) && 0 - 1 <= rangeindex && rangeindex < len(resps) && pyramid != nil
